@@ -52,10 +52,22 @@ def rotate_environment(ctx, shard_index: int) -> None:
     """Behaviour must not depend on the process environment: shards rotate through logging configurations and time zones.
 
     index % 4 == 1: library logging enabled at DEBUG (records go to a NullHandler, nothing is printed);
-    index % 4 == 3: TZ=Europe/Oslo (a zone with daylight saving); otherwise logging disabled and the sandbox's zone.
+    index % 4 == 3: TZ=Europe/Oslo (a zone with daylight saving); otherwise logging disabled and the sandbox's zone;
+    index % 8 == 6: warnings are errors; index % 8 == 5: the runner starts the interpreter with -O (asserts stripped);
+    in every shard the monitors make the clocks jump between calls (vf/mon/clock.py).
     """
     import time
 
+    if shard_index % 8 == 6:
+        # warnings escalated to errors, as under `python -W error` (deprecations excepted: CPython 3.12 itself deprecates calls the library makes)
+        import warnings
+
+        warnings.simplefilter("error")
+        for cat in (DeprecationWarning, PendingDeprecationWarning, ResourceWarning, ImportWarning):
+            warnings.simplefilter("default", cat)
+        ctx.seen("environment", "warnings are errors")
+    if __debug__ is False:
+        ctx.seen("environment", "python -O (asserts stripped)")
     mode = shard_index % 4
     if mode == 1:
         logging.disable(logging.NOTSET)
